@@ -41,6 +41,8 @@ class Project:
         # a step that mentions the headers as declared inputs (in another order than commands
         # report them): file numbering inside n2 then differs from report order
         self.hdrcheck = rnd.random() < 0.35
+        # where the build log lives (C18): constant over the history
+        self.builddir = rnd.choice(["", "", "", "bd", "out/log"])
 
     def add_obj(self):
         rnd = self.rnd
@@ -103,6 +105,7 @@ class Project:
         if order and sorted(order) == list(range(len(steps))):
             steps = [steps[k] for k in order]
         g = graph(steps)
+        g["builddir"] = self.builddir
         for s in steps:
             for sp, c in zip(s["eff"].get("reads", []), s["eff"].get("creads", [])):
                 add_spell(g, sp, c)
@@ -260,6 +263,7 @@ def history(rnd, idx, tier):
 def regen_history(rnd, idx, tier):
     """The manifest is an output of a generator step (C17)."""
     fname = rnd.choice(["build.ninja", "build.ninja", "alt.ninja"])
+    bdir = rnd.choice(["", "", "bd"])
     def version(k, nsteps, rewire, cmdv, pooldepth=None):
         steps = [step([fname], ["gen.in"] + (["gen2.in"] if k % 2 else []), cmd="regen v%d" % cmdv,
                       eff={"kind": "gen", "gen": "cur", "reads": []})]
@@ -272,6 +276,7 @@ def regen_history(rnd, idx, tier):
             steps.append(step(["o%d" % i], ins, cmd="cmd%d-%d" % (i, cmdv),
                               pool="" if pooldepth is None else "pl"))
         g = graph(steps, pools=[] if pooldepth is None else [("pl", pooldepth)])
+        g["builddir"] = bdir
         if k % 4 == 1:
             g["defaults"] = ["o1"]
         return g
